@@ -237,7 +237,7 @@ func BuildV2Record(id Ident, r V2Rec, stages []MigStage) ([]byte, error) {
 		{"Sender", migStr(string(MigPeer(id.Sender)))},
 		{"Recipient", migStr(string(MigPeer(id.Recipient)))},
 		{"TotalSize", migInt(int64(r.TotalSize))},
-		{"Status", migInt(int64(StatusOf(r.Status)))},
+		{"Status", migInt(PublishedStatusCode[r.Status])},
 		{"Queued", migInt(int64(r.Queued))},
 		{"Sent", migInt(int64(r.Sent))},
 		{"Received", migInt(int64(r.Received))},
@@ -251,7 +251,7 @@ func BuildV2Record(id Ident, r V2Rec, stages []MigStage) ([]byte, error) {
 		{"RequiresFinalization", migBool(r.ReqFin)},
 		{"Stages", migStages(r.Stages, stages)},
 	}
-	if _, ok := statusByName[r.Status]; !ok {
+	if _, ok := PublishedStatusCode[r.Status]; !ok {
 		return nil, fmt.Errorf("unknown status %q", r.Status)
 	}
 	nb := basicnode.Prototype.Map.NewBuilder()
@@ -468,4 +468,13 @@ func migSortStrings(s []string) {
 			s[j], s[j-1] = s[j-1], s[j]
 		}
 	}
+}
+
+// PublishedStatusCode: the numbers under which the statuses are STORED by released builds (the order of the constants in statuses.go at the
+// pinned commit). A version-2 datastore was written by such a build, so its records are seeded with these numbers - not with whatever the
+// library under test currently calls datatransfer.<Status> (a renumbering must not go unnoticed).
+var PublishedStatusCode = map[string]int64{
+	"Requested": 0, "Ongoing": 1, "TransferFinished": 2, "ResponderCompleted": 3, "Finalizing": 4, "Completing": 5, "Completed": 6,
+	"Failing": 7, "Failed": 8, "Cancelling": 9, "Cancelled": 10, "InitiatorPaused": 11, "ResponderPaused": 12, "BothPaused": 13,
+	"ResponderFinalizing": 14, "ResponderFinalizingTransferFinished": 15, "ChannelNotFoundError": 16, "Queued": 17, "AwaitingAcceptance": 18,
 }
